@@ -124,8 +124,8 @@ func (s *dockerService) Handle(ctx context.Context, conn net.Conn) error {
 
 		body := make([]byte, 1024)
 
-		n, err := req.Body.Read(body)
-		if err != nil && err != io.EOF {
+		n, err := io.ReadFull(req.Body, body)
+		if err != nil && err != io.EOF && err != io.ErrUnexpectedEOF {
 			return err
 		}
 
